@@ -20,19 +20,21 @@ open SpecVerif.Py SpecVerif.C17
 
 variable {α : Type}
 
-/-- What `.build()` having succeeded gives (`buildable_good`), plus the two
-side conditions under which the acceptance theorems hold:
-* every virtual keyword-only argument carries a default (everything
-  `with_spec_attrs_for` adds does: `nested_virtual_defaults`);
-* no parameter is called like a global of the generated text (`noCapture`;
-  see `key_capture_witness` — open finding KF-C17-key-name-capture). -/
-structure Good (b : Builder) : Prop where
-  reach : Reachable b
-  advNodup : (names (advertised b)).Nodup
-  oneVarKw : countKind b.args .varKw ≤ 1
-  oneVarPos : countKind b.args .varPos ≤ 1
-  virtDefaults : ∀ p ∈ b.virt, p.kind = .kwOnly → p.hasDefault = true
-  noCapture : noCapture b = true
+/-!
+Hypotheses used below (definitions in `Proofs/C17.lean`, repeated here for the reader):
+
+* `Good b` :=  `Reachable b`  (some successful `with_arg` sequence produced `b`)
+             ∧ `(names (advertised b)).Nodup` ∧ `(names b.args).Nodup`
+             ∧ at most one `**` and one `*` among `b.args`      — these four are what `.build()`
+               succeeding gives (`buildable_good`)
+             ∧ every virtual keyword-only argument carries a default (all that
+               `with_spec_attrs_for` adds do: `nested_kw_bijection`)
+             ∧ `noCapture b`: no parameter is called `implementation` / `validate_attrs`
+               (open finding KF-C17-key-name-capture, `key_capture_witness`).
+* `cfgOK m` := the parameter names of the method's recipe (`self`, control parameters, key attribute)
+             are distinct, none is `implementation`/`validate_attrs`/`kwargs`; the nested class has
+             distinct attribute names and its overflow attribute is not one of those parameters.
+-/
 
 /-! ## shape of every reachable builder -/
 
@@ -52,7 +54,8 @@ theorem reachable_shape {b : Builder} (h : Reachable b) :
 
 /-- `.build()` succeeding supplies the structural half of `Good`. -/
 theorem buildable_good {b : Builder} {impl : Sig} (h : buildResult b impl = "ok") :
-    (names (advertised b)).Nodup ∧ countKind b.args .varKw ≤ 1 ∧ countKind b.args .varPos ≤ 1 := by
+    (names (advertised b)).Nodup ∧ (names b.args).Nodup ∧
+      countKind b.args .varKw ≤ 1 ∧ countKind b.args .varPos ≤ 1 := by
   unfold buildResult at h
   split at h
   · exact absurd h (by decide)
@@ -65,23 +68,12 @@ theorem buildable_good {b : Builder} {impl : Sig} (h : buildResult b impl = "ok"
         simp only [Bool.not_eq_true', Bool.and_eq_false_iff, not_or, Bool.not_eq_false] at h1
         simp only [Bool.not_eq_true', Bool.not_eq_false, sigCompiles, Bool.and_eq_true,
           decide_eq_true_eq] at h3
-        refine ⟨?_, h3.2, h3.1⟩
+        have ha := h1.1
         have := h1.2
-        simp only [sigInspectOk, Bool.and_eq_true] at this
-        exact (nodupB_iff _).1 this.2
+        simp only [sigInspectOk, Bool.and_eq_true] at this ha
+        exact ⟨(nodupB_iff _).1 this.2, (nodupB_iff _).1 ha.2, h3.2, h3.1⟩
 
 /-! ## acceptance -/
-
-theorem wrapper_ok_eq {b : Builder} {c : Call α} {f : FCall α} (h : wrapper b c = .ok f) :
-    f = forwardCall b c := by
-  unfold wrapper at h
-  split at h
-  · cases h
-  · split at h
-    · cases h
-    · split at h
-      · cases h
-      · injection h with h; exact h.symm
 
 /-- The wrapper raises nothing but `TypeError` on its own. -/
 theorem wrapper_error_is_typeError {b : Builder} {c : Call α} {e : Err}
@@ -94,49 +86,6 @@ theorem wrapper_error_is_typeError {b : Builder} {c : Call α} {e : Err}
     · split at h
       · injection h with h; exact h.symm
       · cases h
-
-theorem noCapture_mem {b : Builder} (h : noCapture b = true) :
-    (names b.args).contains "validate_attrs" = false ∧
-    (names b.args).contains "implementation" = false := by
-  simp only [SpecVerif.C17.noCapture, List.all_eq_true, reservedNames] at h
-  constructor
-  · rw [Bool.eq_false_iff]; intro hc
-    have := h _ (by simpa using hc)
-    simp at this
-  · rw [Bool.eq_false_iff]; intro hc
-    have := h _ (by simpa using hc)
-    simp at this
-
-theorem wrapper_ok_iff {b : Builder} (hc : noCapture b = true) (c : Call α) :
-    (∃ f, wrapper b c = .ok f) ↔
-      (acceptsB (compiled b) c = true ∧
-        (b.virt ≠ [] → b.checkAttrs = true →
-          validateAttrs b (extraKw (compiled b) c) = true)) := by
-  obtain ⟨hva, him⟩ := noCapture_mem hc
-  unfold wrapper
-  rw [hva, him]
-  by_cases ha : acceptsB (compiled b) c = true
-  · by_cases hv : b.virt = []
-    · simp [ha, hv]
-    · by_cases hk : b.checkAttrs = true
-      · by_cases hval : validateAttrs b (extraKw (compiled b) c) = true
-        · simp [ha, hv, hk, hval]
-        · simp [ha, hv, hk, hval]
-      · simp [ha, hv, hk]
-  · simp [ha]
-
-theorem countKind_append (a b : Sig) (k : Kind) :
-    countKind (a ++ b) k = countKind a k + countKind b k := by
-  simp [countKind]
-
-theorem hasVarKw_of_count {s : Sig} (h : countKind s .varKw = 0) : hasVarKw s = false := by
-  rw [hasVarKw_false_iff]
-  intro p hp hk
-  have : p ∈ s.filter (·.kind == .varKw) := List.mem_filter.2 ⟨hp, by simp [hk]⟩
-  unfold countKind at h
-  rw [List.length_eq_zero_iff] at h
-  rw [h] at this
-  cases this
 
 /-- **accepts_iff_advertised.** For every buildable builder reachable by any
 `with_arg` sequence and every call: the generated method gets past its own
@@ -212,64 +161,6 @@ theorem unknown_kw_before_effects {σ ρ : Type} {b : Builder} (hb : Good b) (c 
   exact ⟨hw, by simp [runWrapper, hw]⟩
 
 /-! ## forwarding -/
-
-theorem mem_forward_kw_named {b : Builder} (c : Call α) {p : Param} (hp : p ∈ b.args)
-    (hk : p.kind = .posOrKw ∨ p.kind = .kwOnly) :
-    (p.name, argOf (compiled b) c p) ∈ (forwardCall b c).kw := by
-  simp only [forwardCall, List.mem_flatMap]
-  refine ⟨p, hp, ?_⟩
-  rcases hk with hk | hk <;> simp [hk]
-
-theorem mem_forward_kw_extra {b : Builder} (c : Call α) (hvk : hasVarKw b.args = true)
-    {k : Name} {v : α} (hkv : (k, v) ∈ extraKw (compiled b) c) :
-    (k, Arg.val v) ∈ (forwardCall b c).kw := by
-  obtain ⟨p, hp, hpk⟩ := hasVarKw_iff.1 hvk
-  simp only [forwardCall, List.mem_flatMap]
-  refine ⟨p, hp, ?_⟩
-  simp only [hpk, List.mem_map]
-  exact ⟨(k, v), hkv, rfl⟩
-
-theorem forward_kw_mem_cases {b : Builder} (c : Call α) {k : Name} {a : Arg α}
-    (h : (k, a) ∈ (forwardCall b c).kw) :
-    (∃ p ∈ b.args, (p.kind = .posOrKw ∨ p.kind = .kwOnly) ∧ p.name = k ∧ a = argOf (compiled b) c p) ∨
-    (∃ v, (k, v) ∈ extraKw (compiled b) c ∧ a = .val v ∧ hasVarKw b.args = true) := by
-  simp only [forwardCall, List.mem_flatMap] at h
-  obtain ⟨p, hp, hm⟩ := h
-  cases hk : p.kind with
-  | posOnly => simp [hk] at hm
-  | varPos => simp [hk] at hm
-  | posOrKw =>
-    simp only [hk, List.mem_singleton, Prod.mk.injEq] at hm
-    exact Or.inl ⟨p, hp, Or.inl hk, hm.1.symm, hm.2⟩
-  | kwOnly =>
-    simp only [hk, List.mem_singleton, Prod.mk.injEq] at hm
-    exact Or.inl ⟨p, hp, Or.inr hk, hm.1.symm, hm.2⟩
-  | varKw =>
-    simp only [hk, List.mem_map, Prod.mk.injEq] at hm
-    obtain ⟨kv, hkv, h1, h2⟩ := hm
-    refine Or.inr ⟨kv.2, ?_, h2.symm, hasVarKw_iff.2 ⟨p, hp, hk⟩⟩
-    rw [← h1]; exact hkv
-
-theorem kwGet_mem {kw : List (Name × α)} {k : Name} {v : α} (h : kwGet kw k = some v) :
-    (k, v) ∈ kw := by
-  unfold kwGet at h
-  cases hf : kw.find? (fun p => p.1 == k) with
-  | none => simp [hf] at h
-  | some q =>
-    simp [hf] at h
-    have hq := List.find?_some hf
-    have hm := List.mem_of_find?_eq_some hf
-    simp at hq
-    subst h
-    rw [← hq]; exact hm
-
-theorem kwGet_none {kw : List (Name × α)} {k : Name} (h : kwGet kw k = none) :
-    k ∉ kw.map (·.1) := by
-  unfold kwGet at h
-  simp only [Option.map_eq_none_iff, List.find?_eq_none] at h
-  intro hm
-  obtain ⟨q, hq, rfl⟩ := List.mem_map.1 hm
-  exact h q hq (by simp)
 
 /-- **forwards_bound.** When the generated method enters the implementation,
 what arrives there is determined by Python's binding of the call against the
@@ -472,5 +363,389 @@ theorem forwards_bound {b : Builder} (hb : Good b) (c : Call α) (f : FCall α)
       by_cases hin : k ∈ namedNames (advertised b)
       · exact Or.inl hin
       · exact Or.inr ((hacc.kwOk k hkn).2 hin)
+
+/-- the keywords that reach the implementation are pairwise distinct (so "the
+value arriving for `k`" in `forwards_bound` is unambiguous) -/
+theorem forwarded_keys_nodup {b : Builder} (hb : Good b) (c : Call α) (f : FCall α)
+    (h : wrapper b c = .ok f) : (f.kw.map (·.1)).Nodup := by
+  have inv := inv_of_reachable hb.reach
+  have hcomp := compiled_eq_args inv
+  have hf := wrapper_ok_eq h
+  subst hf
+  have hacc : Accepts b.args c := by
+    have := (wrapper_ok_iff hb.noCapture c).1 ⟨_, h⟩
+    rw [hcomp] at this
+    exact (acceptsB_iff _ _).1 this.1
+  rw [forwardCall_kw, hcomp]
+  apply fwdKw_names_nodup b.args c b.args hb.argsNodup hb.oneVarKw
+  · have : (extraKw b.args c).map (·.1) = c.kwNames.filter (fun k => !(namedNames b.args).contains k) := by
+      simp [extraKw, Call.kwNames, List.filter_map, Function.comp_def]
+    rw [this]
+    exact hacc.kwNodup.sublist List.filter_sublist
+  · intro k hk
+    simp only [extraKw, List.mem_map, List.mem_filter] at hk
+    obtain ⟨kv, ⟨_, hn⟩, rfl⟩ := hk
+    simpa using hn
+
+/-! ## compatibility with the implementation -/
+
+/-- **compatible_with_impl.** When `.build()`'s compatibility check passed
+(`checkCompatible`), every call the generated method forwards binds to the
+implementation's own parameters: entering the implementation never fails with a
+binding `TypeError`. Side conditions (all true of every implementation in
+`spec_classes/methods`, and re-checked on every run from
+`inspect.signature(implementation)`): the method has no `*args` parameter
+(`varpos_forward_witness` shows the check is not enough otherwise); the
+implementation has no positional-only parameter; its `*`/`**` parameter names
+are not method parameter names and the method's `**` name is not one of its
+parameters; its keyword-only parameters have defaults or are forwarded
+(`checkCompatible` only looks at positional ones: `kwonly_required_witness`). -/
+theorem compatible_with_impl {b : Builder} (hb : Good b) (impl : Sig)
+    (hcompat : checkCompatible b.args impl = true)
+    (hnovp : hasVarPos b.args = false)
+    (hnoPO : ∀ q ∈ impl, q.kind ≠ .posOnly)
+    (hvarFresh : ∀ q ∈ impl, q.kind.isVar = true → q.name ∉ names b.args)
+    (hmVar : ∀ p ∈ b.args, p.kind = .varKw → p.name ∉ names impl)
+    (hkwOnly : ∀ q ∈ impl, q.kind = .kwOnly → q.hasDefault = true ∨ q.name ∈ namedNames b.args)
+    (c : Call α) (f : FCall α) (h : wrapper b c = .ok f) :
+    ∃ bd, pyBind impl f.toCall = .ok bd := by
+  have inv := inv_of_reachable hb.reach
+  have hcomp := compiled_eq_args inv
+  have hnd := forwarded_keys_nodup hb c f h
+  have hf := wrapper_ok_eq h
+  subst hf
+  have hposnil : (forwardCall b c).pos = [] := by
+    simp only [forwardCall]
+    rw [List.flatMap_eq_nil_iff]
+    intro p hp
+    have h1 := inv.noPosOnly p hp
+    have h2 : p.kind ≠ .varPos := by
+      intro hk
+      have : hasVarPos b.args = true := by
+        simp only [hasVarPos, List.any_eq_true]; exact ⟨p, hp, by simp [hk]⟩
+      rw [hnovp] at this; cases this
+    cases hk : p.kind <;> simp_all
+  simp only [checkCompatible, Bool.and_eq_true, List.all_eq_true] at hcompat
+  obtain ⟨hc1, hc2⟩ := hcompat
+  -- named method parameters are forwarded by keyword
+  have hfwd : ∀ n, n ∈ namedNames b.args → n ∈ (forwardCall b c).toCall.kwNames := by
+    intro n hn
+    obtain ⟨p, hp, hpn, rfl⟩ := mem_namedNames.1 hn
+    have hk : p.kind = .posOrKw ∨ p.kind = .kwOnly := by
+      cases hk : p.kind <;> simp [hk, Kind.isNamed] at hpn <;> simp
+    exact List.mem_map.2 ⟨_, mem_forward_kw_named c hp hk, rfl⟩
+  have hacc : Accepts impl (forwardCall b c).toCall := by
+    refine ⟨?_, ?_, ?_, ?_⟩
+    · left; simp [FCall.toCall, hposnil]
+    · exact hnd
+    · intro k hk
+      refine ⟨?_, ?_⟩
+      · intro _; simp [takenPos, FCall.toCall, hposnil]
+      · intro hnot
+        have hk' : k ∈ (fwdKw (compiled b) c b.args).map (·.1) := hk
+        rcases mem_fwdKw_names hk' with hn | ⟨hvk, _⟩
+        · obtain ⟨p, hp, hpn, rfl⟩ := mem_namedNames.1 hn
+          have := hc2 p hp
+          have hpk : p.kind = .posOrKw ∨ p.kind = .kwOnly := by
+            cases hk2 : p.kind <;> simp [hk2, Kind.isNamed] at hpn <;> simp
+          have hdisj : (names impl).contains p.name = true ∨ hasVarKw impl = true := by
+            rcases hpk with hk2 | hk2 <;> simp only [hk2, Bool.or_eq_true, Bool.and_eq_true] at this
+            · rcases this with h | h
+              · exact Or.inl h
+              · exact Or.inr h.2
+            · rcases this with h | h
+              · exact Or.inl h
+              · exact Or.inr h.2
+          rcases hdisj with hin | hvk
+          · exfalso
+            obtain ⟨q, hq, hqn⟩ := mem_names.1 (by simpa using hin)
+            apply hnot
+            refine mem_namedNames.2 ⟨q, hq, ?_, hqn⟩
+            have h1 := hnoPO q hq
+            have h2 : q.kind.isVar = false := by
+              cases hv : q.kind.isVar with
+              | false => rfl
+              | true =>
+                exfalso
+                exact hvarFresh q hq hv (by rw [hqn]; exact mem_names.2 ⟨p, hp, rfl⟩)
+            cases hqk : q.kind <;> simp_all [Kind.isNamed, Kind.isVar]
+          · exact hvk
+        · obtain ⟨p, hp, hpk⟩ := hasVarKw_iff.1 hvk
+          have := hc2 p hp
+          simpa [hpk] using this
+    · intro q hq
+      by_cases hv : q.kind.isVar = true
+      · exact Or.inl hv
+      by_cases hd : q.hasDefault = true
+      · exact Or.inr (Or.inl hd)
+      refine Or.inr (Or.inr ?_)
+      have hnamed : q.kind.isNamed = true ∧ q.name ∈ namedNames b.args := by
+        have h1 := hnoPO q hq
+        cases hqk : q.kind with
+        | posOnly => exact absurd hqk h1
+        | varPos => simp [hqk, Kind.isVar] at hv
+        | varKw => simp [hqk, Kind.isVar] at hv
+        | kwOnly =>
+          refine ⟨rfl, ?_⟩
+          rcases hkwOnly q hq hqk with h | h
+          · exact absurd h hd
+          · exact h
+        | posOrKw =>
+          refine ⟨rfl, ?_⟩
+          have := hc1 q hq
+          simp only [hqk, Kind.isPositional, Bool.true_and, Bool.not_eq_true', Bool.and_eq_false_iff,
+            Bool.not_eq_false'] at this
+          have hd' : q.hasDefault = false := by simpa using hd
+          have hin : q.name ∈ names b.args := by
+            rcases this with h | h
+            · rw [hd'] at h; simp at h
+            · simpa using h
+          obtain ⟨p, hp, hpn⟩ := mem_names.1 hin
+          refine mem_namedNames.2 ⟨p, hp, ?_, hpn⟩
+          have h1 := inv.noPosOnly p hp
+          have h2 : p.kind ≠ .varPos := by
+            intro hk
+            have : hasVarPos b.args = true := by
+              simp only [hasVarPos, List.any_eq_true]; exact ⟨p, hp, by simp [hk]⟩
+            rw [hnovp] at this; cases this
+          have h3 : p.kind ≠ .varKw := by
+            intro hk
+            exact hmVar p hp hk (by rw [hpn]; exact mem_names.2 ⟨q, hq, rfl⟩)
+          cases hpk : p.kind <;> simp_all [Kind.isNamed]
+      simp only [filled, Bool.or_eq_true, Bool.and_eq_true]
+      right
+      exact ⟨hnamed.1, by simpa using hfwd _ hnamed.2⟩
+  exact ⟨_, by unfold pyBind; rw [(acceptsB_iff _ _).2 hacc]; rfl⟩
+
+/-! ## nested-attribute keywords -/
+
+/-- **nested_kw_bijection.** `with_spec_attrs_for(T)` on a builder without
+virtual arguments never fails, and the keyword-only virtual arguments it adds
+are — in order, without repetition — the init-enabled attributes of `T` that
+are not already parameters and are not the overflow attribute; the overflow
+attribute becomes the single virtual `**` parameter; every added keyword has a
+(documentary) default. -/
+theorem nested_kw_bijection (b : Builder) (t : Nested) (hv : b.virt = []) :
+    ∃ b', withSpecAttrsFor b t = .ok b' ∧
+      (b'.virt.filter (·.kind == .kwOnly)).map (·.name) = nestedKw b t ∧
+      (∀ n, n ∈ nestedKw b t ↔
+        (∃ a ∈ t.attrs, a.name = n ∧ a.init = true) ∧ n ∉ names b.args ∧ t.overflow ≠ some n) ∧
+      ((t.attrs.map (·.name)).Nodup → (nestedKw b t).Nodup) ∧
+      (b'.virt.filter (·.kind == .varKw)).map (·.name) = t.overflow.toList ∧
+      (∀ p ∈ b'.virt, p.kind = .kwOnly → p.hasDefault = true) := by
+  refine ⟨_, withSpecAttrsFor_eq b t hv, ?_, ?_, ?_, ?_, ?_⟩ <;> (try rw [nestedResult_virt])
+  · simp only [List.filter_append, List.map_append]
+    have h1 : ((nestedKw b t).map kwParam).filter (·.kind == .kwOnly) = (nestedKw b t).map kwParam := by
+      rw [List.filter_eq_self]; intro p hp
+      obtain ⟨k, _, rfl⟩ := List.mem_map.1 hp; rfl
+    rw [h1]
+    cases t.overflow <;> simp [kwParam, overflowParam, Function.comp_def]
+  · intro n
+    simp only [nestedKw, List.mem_map, List.mem_filter, Bool.and_eq_true, Bool.not_eq_true',
+      List.contains_eq_mem, decide_eq_false_iff_not, currentNames, hv, names, List.map_nil,
+      List.append_nil, beq_eq_false_iff_ne, ne_eq]
+    constructor
+    · rintro ⟨a, ⟨ha, ⟨hi, hn⟩, ho⟩, rfl⟩
+      refine ⟨⟨a, ha, rfl, hi⟩, hn, ?_⟩
+      exact fun h => ho h
+    · rintro ⟨⟨a, ha, rfl, hi⟩, hn, ho⟩
+      exact ⟨a, ⟨ha, ⟨hi, hn⟩, fun h => ho h⟩, rfl⟩
+  · intro hnd
+    unfold nestedKw
+    exact hnd.sublist ((List.filter_sublist).map _)
+  · simp only [List.filter_append, List.map_append]
+    have h1 : ((nestedKw b t).map kwParam).filter (·.kind == .varKw) = [] := by
+      rw [List.filter_eq_nil_iff]; intro p hp
+      obtain ⟨k, _, rfl⟩ := List.mem_map.1 hp; simp [kwParam]
+    rw [h1]
+    cases t.overflow <;> simp [overflowParam]
+  · intro p hp _
+    simp only [List.mem_append, List.mem_map] at hp
+    rcases hp with ⟨k, _, rfl⟩ | hp
+    · rfl
+    · cases ho : t.overflow with
+      | none => rw [ho] at hp; cases hp
+      | some o =>
+        rw [ho] at hp; simp at hp; subst hp
+        rename_i hk; simp [overflowParam] at hk
+
+/-! ## the generated methods are instances -/
+
+/-- **generated_methods_satisfy_hypotheses.** For each of the 20 generated
+method kinds, any key attribute, any nested class (any number of attributes,
+any init flags, with or without overflow attribute): the `with_arg` sequence of
+its `build_method` followed by `with_spec_attrs_for` succeeds, and the resulting
+builder satisfies every hypothesis of the theorems above — so
+`accepts_iff_advertised`, `forwards_bound`, `unknown_kw_before_effects` apply to
+every generated method of every class (under `cfgOK`: distinct parameter names,
+none of them a global of the generated text). -/
+theorem generated_methods_satisfy_hypotheses (m : MethodCfg) (hm : cfgOK m = true) :
+    ∃ b, builderFor m = .ok b ∧ Good b := by
+  have hb0 : builderFor m = (match m.nested with
+      | some t => if m.kind.takesNested then withSpecAttrsFor (base m) t else .ok (base m)
+      | none => .ok (base m)) := by
+    unfold builderFor
+    rw [withArgs_recipe]
+    rfl
+  cases hn : m.nested with
+  | none =>
+    refine ⟨base m, ?_, good_base m hm⟩
+    rw [hb0, hn]
+  | some t =>
+    by_cases htn : m.kind.takesNested = true
+    · obtain ⟨hnd, hres, hkwargs, hnest⟩ := cfgOK_parts hm
+      obtain ⟨hattrs, hover⟩ := hnest t hn
+      have hv : (base m).virt = [] := rfl
+      have heq := withSpecAttrsFor_eq (base m) t hv
+      obtain ⟨b', hb', _, hmem, hksnd, _, hdef⟩ := nested_kw_bijection (base m) t hv
+      have hbb : b' = nestedResult (base m) t := by
+        rw [heq] at hb'; injection hb' with hb'; exact hb'.symm
+      refine ⟨b', by rw [hb0, hn]; simp only [htn, if_true]; rw [heq, hbb], ?_⟩
+      have gb := good_base m hm
+      have hreach : Reachable b' :=
+        reachable_withSpecAttrsFor gb.reach (by rw [heq, hbb])
+      have hk := base_kinds m
+      have hks_fresh : ∀ k ∈ nestedKw (base m) t, k ∉ own m := by
+        intro k hk'
+        have := ((hmem k).1 hk').2.1
+        rwa [names_base] at this
+      have hks_ovf : ∀ k ∈ nestedKw (base m) t, t.overflow ≠ some k := fun k hk' => ((hmem k).1 hk').2.2
+      subst hbb
+      have h0kw : countKind (base m).args .varKw = 0 :=
+        countKind_zero (by intro p hp; rcases hk p hp with h | h <;> simp [h])
+      have h0vp : countKind (base m).args .varPos = 0 :=
+        countKind_zero (by intro p hp; rcases hk p hp with h | h <;> simp [h])
+      refine ⟨hreach, ?_, ?_, ?_, ?_, hdef, ?_⟩
+      rotate_left
+      · -- compiled names are distinct
+        rcases nestedResult_args_cases (base m) t with ⟨_, ha⟩ | ⟨_, ha⟩
+        · rw [ha, names_base]; exact hnd
+        · rw [ha, names_append, names_base, List.nodup_append]
+          refine ⟨hnd, by simp [names], ?_⟩
+          intro a ha' b hb
+          simp [names, kwargsParam] at hb; subst hb
+          intro h; exact hkwargs (by rw [← h]; exact ha')
+      rotate_right
+      · -- advertised names are distinct
+        rw [advertised_nestedResult, names_append, names_base, nestedResult_virt, List.nodup_append]
+        refine ⟨hnd, ?_, ?_⟩
+        · -- the virtual names
+          simp only [names, List.map_append, List.map_map]
+          rw [List.nodup_append]
+          refine ⟨?_, ?_, ?_⟩
+          · have : (List.map ((fun x => x.name) ∘ kwParam) (nestedKw (base m) t)) = nestedKw (base m) t := by
+              simp [Function.comp_def, kwParam]
+            rw [this]; exact hksnd hattrs
+          · cases t.overflow <;> simp
+          · intro a ha b hb
+            simp only [List.mem_map, Function.comp] at ha
+            obtain ⟨k, hk', rfl⟩ := ha
+            cases ho : t.overflow with
+            | none => rw [ho] at hb; simp at hb
+            | some o =>
+              rw [ho] at hb; simp [overflowParam] at hb; subst hb
+              simp only [kwParam]
+              intro h; exact hks_ovf k hk' (by rw [ho, h])
+        · intro a ha b hb
+          simp only [names, List.map_append, List.mem_append, List.mem_map] at hb
+          rcases hb with ⟨p, hp, rfl⟩ | ⟨p, hp, rfl⟩
+          · obtain ⟨k, hk', rfl⟩ := hp
+            intro h; exact hks_fresh k hk' (by have : a = k := h; rw [← this]; exact ha)
+          · cases ho : t.overflow with
+            | none => rw [ho] at hp; cases hp
+            | some o =>
+              rw [ho] at hp; simp at hp; subst hp
+              intro h; exact hover o ho (by have : a = o := h; rw [← this]; exact ha)
+      · -- at most one `**`
+        rcases nestedResult_args_cases (base m) t with ⟨_, ha⟩ | ⟨_, ha⟩
+        · rw [ha]; omega
+        · rw [ha, countKind_append]
+          have : countKind [kwargsParam] .varKw = 1 := by simp [countKind, kwargsParam]
+          omega
+      · rcases nestedResult_args_cases (base m) t with ⟨_, ha⟩ | ⟨_, ha⟩
+        · rw [ha]; omega
+        · rw [ha, countKind_append]
+          have : countKind [kwargsParam] .varPos = 0 := by simp [countKind, kwargsParam]
+          omega
+      · apply noCapture_of_names
+        intro n hn'
+        rcases nestedResult_args_cases (base m) t with ⟨_, ha⟩ | ⟨_, ha⟩
+        · rw [ha, names_base] at hn'; exact hres n hn'
+        · rw [ha, names_append, names_base, List.mem_append] at hn'
+          rcases hn' with h | h
+          · exact hres n h
+          · simp [names, kwargsParam] at h; subst h; decide
+    · refine ⟨base m, ?_, good_base m hm⟩
+      rw [hb0, hn]; simp [htn]
+
+/-! ## non-vacuity, and why each hypothesis is there -/
+
+/-- `with_ns_item`-like method of a `List[N]` attribute, `N` with key `k`, `a`, an init=False `hidden`, -/
+def exCfg : MethodCfg :=
+  ⟨.withSeq, none, some ⟨[⟨"k", true⟩, ⟨"a", true⟩, ⟨"hidden", false⟩], none⟩⟩
+
+/-- the constructor of a class with key `name` and overflow attribute `rest` -/
+def exInit : MethodCfg :=
+  ⟨.init, some ("name", false), some ⟨[⟨"name", true⟩, ⟨"x", true⟩, ⟨"rest", true⟩], some "rest"⟩⟩
+
+example : cfgOK exCfg = true := by decide
+example : cfgOK exInit = true := by decide
+example : ∃ b, builderFor exCfg = .ok b ∧ Good b := generated_methods_satisfy_hypotheses exCfg (by decide)
+
+/-- an accepted call (`obj.with_n_item(item, a=…)`) and a rejected one (`hidden=…`) exist -/
+example : ∃ b, builderFor exCfg = .ok b ∧
+    (∃ f, wrapper b (⟨["self", "item"], [("a", "1")]⟩ : Call String) = .ok f) ∧
+    wrapper b (⟨["self"], [("hidden", "1")]⟩ : Call String) = .error .typeError := by
+  refine ⟨_, rfl, ⟨_, rfl⟩, rfl⟩
+
+/-- Open finding KF-C17-key-name-capture: a key attribute called
+`implementation` becomes a compiled parameter that shadows the global of the
+generated text: the advertised signature accepts `C(implementation=v)`, the
+constructor raises `TypeError`. `noCapture` excludes exactly this. -/
+def KeyNameCaptureFree : Prop :=
+  ∀ (m : MethodCfg) (b : Builder) (c : Call String), builderFor m = .ok b →
+    (∃ bd, pyBind (advertised b) c = .ok bd) → ∃ f, wrapper b c = .ok f
+
+def captureCfg : MethodCfg :=
+  ⟨.init, some ("implementation", false), some ⟨[⟨"implementation", true⟩, ⟨"x", true⟩], none⟩⟩
+
+def captureBuilder : Builder :=
+  ⟨[⟨"self", .posOrKw, false⟩, ⟨"implementation", .posOrKw, false⟩, kwargsParam],
+   [⟨"x", .kwOnly, true⟩], true⟩
+
+theorem key_capture_witness : ¬ KeyNameCaptureFree := by
+  intro h
+  have hb : builderFor captureCfg = .ok captureBuilder := rfl
+  obtain ⟨f, hf⟩ := h captureCfg captureBuilder
+    (⟨["self"], [("implementation", "v")]⟩ : Call String) hb ⟨_, rfl⟩
+  have herr : wrapper captureBuilder (⟨["self"], [("implementation", "v")]⟩ : Call String)
+      = .error .typeError := rfl
+  rw [herr] at hf
+  cases hf
+
+/-- a virtual keyword-only argument WITHOUT default (possible through `with_arg`
+directly, never through `with_spec_attrs_for`) is advertised as required but not
+enforced: `virtDefaults` is needed. -/
+theorem virtual_without_default_witness :
+    ∃ (b : Builder) (c : Call String), Reachable b ∧
+      (∃ f, wrapper b c = .ok f) ∧ pyBind (advertised b) c = .error .typeError := by
+  refine ⟨⟨[⟨"self", .posOrKw, false⟩, kwargsParam], [⟨"v", .kwOnly, false⟩], true⟩, ⟨["self"], []⟩,
+    Reachable.step ⟨"v", .kwOnly, false, true⟩ Reachable.init rfl, ⟨_, rfl⟩, rfl⟩
+
+/-- with a `*args` parameter the compatibility check passes but forwarding
+(`implementation(self=self, *args)`) collides with the implementation's `self` -/
+theorem varpos_forward_witness :
+    ∃ (b : Builder) (impl : Sig) (c : Call String) (f : FCall String), Reachable b ∧
+      buildResult b impl = "ok" ∧ wrapper b c = .ok f ∧ pyBind impl f.toCall = .error .typeError := by
+  refine ⟨⟨[⟨"self", .posOrKw, false⟩, ⟨"args", .varPos, false⟩], [], true⟩,
+    [⟨"self", .posOrKw, false⟩, ⟨"args", .varPos, false⟩], ⟨["self", "extra"], []⟩, _,
+    Reachable.step ⟨"args", .varPos, false, false⟩ Reachable.init rfl, by decide, rfl, rfl⟩
+
+/-- a required keyword-only parameter of the implementation is not seen by the compatibility check -/
+theorem kwonly_required_witness :
+    ∃ (impl : Sig) (c : Call String) (f : FCall String),
+      buildResult Builder.init impl = "ok" ∧ wrapper Builder.init c = .ok f ∧
+      pyBind impl f.toCall = .error .typeError := by
+  refine ⟨[⟨"self", .posOrKw, false⟩, ⟨"z", .kwOnly, false⟩], ⟨["self"], []⟩, _, by decide, rfl, rfl⟩
 
 end SpecVerif.Props.C17
